@@ -62,6 +62,28 @@ def filter_empty(args: dict, meta: dict, info: dict):
             logger.debug("removeing empty fields %s", val)
 
 
+def _sort_keys(dic: dict) -> dict:
+    """
+    Return a copy of dic with keys in bencode (raw byte) order.
+
+    Parameters
+    ----------
+    dic : dict
+        dictionary decoded from a metafile; keys are str or bytes.
+
+    Returns
+    -------
+    dict
+        the same items in sorted key order.
+    """
+
+    def raw(item):
+        key = item[0]
+        return key if isinstance(key, bytes) else str(key).encode("utf-8")
+
+    return dict(sorted(dic.items(), key=raw))
+
+
 def edit_torrent(metafile: str, args: dict) -> dict:
     """
     Edit the properties and values in a torrent meta file.
@@ -116,7 +138,8 @@ def edit_torrent(metafile: str, args: dict) -> dict:
         elif isinstance(val, list):
             meta["httpseeds"] = val
 
-    meta["info"] = info
+    meta["info"] = _sort_keys(info)
+    meta = _sort_keys(meta)
     os.remove(metafile)
     pyben.dump(meta, metafile)
     return meta
